@@ -93,7 +93,8 @@ class Run:
     """One execution of a program under a schedule; collects observations for the oracles."""
 
     def __init__(self, prog: Any, reqs: List[Req], auto_resume: bool = True, auto_play: bool = True,
-                 resume_default: Any = 11, max_ticks: int = 60, make: Optional[Callable[..., Any]] = None):
+                 resume_default: Any = 11, max_ticks: int = 60, make: Optional[Callable[..., Any]] = None,
+                 attach_listener: bool = True):
         self.reqs = reqs
         self.auto_resume, self.auto_play = auto_resume, auto_play
         self.resume_default = resume_default
@@ -116,7 +117,8 @@ class Run:
         p = self.proc
         self.samples.append(p.state)
         self.listener = Listener(self)
-        p.add_process_listener(self.listener)
+        if attach_listener:
+            p.add_process_listener(self.listener)
         p.add_state_event_callback(StateEventHook.ENTERED_STATE, self._entered)
         p.add_cleanup(lambda: self._cleanup('a'))
         self.future = p.future()
